@@ -768,6 +768,30 @@ def main(run):
         w, vals = offset_front(n, rng.choice([2, 3]), ulp_column)
         if distinct_per_objective([tuple(v) for v in vals]):
             all_k_nd(w, vals)
+
+    def subnormal_column(n):
+        # a whole objective inside the subnormal range: its range is positive but below the smallest normal double
+        sgn = rng.choice([1.0, -1.0])
+        return [sgn * m * 5e-324 for m in sorted(rng.sample(range(0, 64), n))]
+
+    for _ in range(run.scale(8, 80)):
+        n = rng.randint(4, 8)
+        nobj = rng.choice([2, 3])
+        mixed = rng.random() < 0.5          # one subnormal objective next to ordinary ones, or all subnormal
+        cols = [0] if mixed else list(range(nobj))
+        w, vals = offset_front(n, nobj, lambda m: subnormal_column(m))
+        if mixed:
+            w2, vals2 = offset_front(n, nobj)
+            key0 = sorted(range(n), key=lambda j: vals[j][0])
+            key1 = sorted(range(n), key=lambda j: vals2[j][1])
+            for a, b in zip(key0, key1):            # keep the anti-chain shape: objective 1 from the ordinary front
+                for i in range(1, nobj):
+                    vals[a][i] = vals2[b][i]
+            w = [w[0]] + list(w2[1:])
+        w = [x if abs(x) != 0.5 else (1 if x > 0 else -1) for x in w]      # keep subnormal values exact under the weights
+        if distinct_per_objective([tuple(v) for v in vals]):
+            stats["subnormal_range_fronts"] = stats.get("subnormal_range_fronts", 0) + 1
+            all_k_nd(w, vals)
     for _ in range(run.scale(8, 80)):
         n = rng.randint(1, 8)
         nobj = rng.choice([2, 3])
